@@ -113,7 +113,7 @@ def describe(c):
 
 def main():
     chk = Check("C09", "proof")
-    chk.cov["trusted_base"] = TRUSTED_COMMON + ["Print Assumptions: all nine theorems closed under the global context (no axioms)"]
+    chk.cov["trusted_base"] = TRUSTED_COMMON + ["Print Assumptions: all ten theorems closed under the global context (no axioms)"]
     chk.assumptions = ["lists have at most 2^63-1 elements (Rust Vec invariant)", "integers held by values lie in [-2^127, 2^128) (value representation)",
                        "modelled: ops.rs::{slice_bound,slice_indices,slice_vec,slice}, Value::get_item_opt index helper; the iterator adaptors skip/step_by/take are modelled by skipZ/step_byZ/takeZ"]
     ok_models, blog = build_models("C09")
